@@ -265,7 +265,7 @@ CHECKS["C13"] = {
         "thorough": [{"pkg": "internal/pfcp", "entries": ["ZZ_C13_*"], "witnesses": 6, "max_paths": 4000000, "budget_s": 3000},
                      {"pkg": "internal/forwarder", "entries": ["ZZ_C13_*"], "witnesses": 6, "max_paths": 4000000, "budget_s": 3000}],
     },
-    "covers": {"all": ["ZZ_C13_ReuseTwo:C13.reuse-two.done", "ZZ_C13_Queue:C13.queue.done", "ZZ_C13_Queue:C13.queue.overflow-dropped", "ZZ_C13_Queue:C13.dldr", "ZZ_C13_Ended:C13.ended.done", "ZZ_C13_Capacity:C13.capacity.done", "ZZ_C13_Unknown:C13.unknown.done",
+    "covers": {"all": ["ZZ_C13_ReuseTwo:C13.reuse-two.done", "ZZ_C13_Queue:C13.queue.done", "ZZ_C13_Queue:C13.queue.overflow-dropped", "ZZ_C13_Queue:C13.dldr", "ZZ_C13_Ended:C13.ended.done", "ZZ_C13_Capacity:C13.capacity.done", "ZZ_C13_Unknown:C13.unknown.done", "ZZ_C13_SharedBuffer:C13.shared.done",
                        "ZZ_C13_Notify:C13.notify.done", "ZZ_C13_Release:C13.release.done", "ZZ_C13_Release:C13.release.forw", "ZZ_C13_Release:C13.release.drop",
                        "ZZ_C13_Release:C13.release.keep", "ZZ_C13_Release:C13.release.not-buffering", "ZZ_C13_Release:C13.release.forw-no-tunnel",
                        "ZZ_C13_Release:C13.release.action-before-farid"]},
